@@ -189,7 +189,7 @@ def is_container(v):
     return isinstance(v, Adt) and v.vname in ("Array", "Object")
 
 
-def rule_write(progs, tier, name="YQDOM(write)", n_quick=6, n_thorough=20, per_doc_quick=7, per_doc_thorough=14):
+def rule_write(progs, tier, name="YQDOM(write)", n_quick=6, n_thorough=12, per_doc_quick=7, per_doc_thorough=10):
     out = []
     for cfg, P in progs.items():
         res = RuleResult(name, cfg)
@@ -269,7 +269,7 @@ def rule_write(progs, tier, name="YQDOM(write)", n_quick=6, n_thorough=20, per_d
     return out
 
 
-def rule_syntax(progs, tier, name="YQDOM(syntax)", n_quick=8, n_thorough=30):
+def rule_syntax(progs, tier, name="YQDOM(syntax)", n_quick=8, n_thorough=20):
     from .yamlload import EDGE_INT_TREES
 
     out = []
